@@ -36,14 +36,24 @@ TOY = Toy()
 X = jnp.ones(2, jnp.float32)
 DEFAULT = Config.instance()
 S1, S2 = lx.CG(rtol=1e-3, atol=1e-3), lx.GMRES(rtol=1e-2, atol=1e-2)
-SETTINGS = [dict(solver=S1), dict(solver_throw=True), dict(solver=S2, solver_options={'k': 2})]
+# setting 2 names a preconditioner: InverseOperator.mv wraps it for lineax, which must not alter the captured configuration
+SETTINGS = [dict(solver=S1), dict(solver_throw=True), dict(solver=S2, solver_options={'k': 2, 'preconditioner': TOY})]
+
+
+def fresh(setting):
+    """A Config(**kwargs) argument set with its own options dict (the user's dict must not be shared between histories)."""
+    return {k: (dict(v) if isinstance(v, dict) else v) for k, v in setting.items()}
 SEEN = []
 _real_solve = lx.linear_solve
 _real_cb = jax.debug.callback
 
 
 def rec_solve(A, b, solver=None, throw=None, options=None, **kw):
-    SEEN.append((solver, throw, tuple(sorted((options or {}).items()))))
+    options = dict(options or {})
+    pre = options.get('preconditioner')
+    if isinstance(pre, lx.TaggedLinearOperator):
+        options['preconditioner'] = pre.operator       # mv hands lineax the configured preconditioner, tagged
+    SEEN.append((solver, throw, tuple(sorted(options.items()))))
     return lx.Solution(value=b, result=lx.RESULTS.successful, stats={}, state=None)
 
 
@@ -74,7 +84,7 @@ def run_history(events):
         made = None
         for e in events:
             if 0 <= e < 3:
-                cm = Config(**SETTINGS[e])
+                cm = Config(**fresh(SETTINGS[e]))
                 entered = cm.__enter__()
                 cms.append(cm)
                 so, th, op = model[-1]
@@ -83,7 +93,7 @@ def run_history(events):
                 if view(entered) != model[-1]:
                     return False
             elif e in (9, 10):
-                made = (Config(**SETTINGS[e - 9]), e - 9, model[-1])
+                made = (Config(**fresh(SETTINGS[e - 9])), e - 9, model[-1])
             elif e == 11 and made is not None and not any(cm is made[0] for cm in cms):
                 cm, k, at_ctor = made
                 entered = cm.__enter__()
@@ -157,7 +167,7 @@ class Task:
 
     def _step(self, e):
         if 0 <= e < 3:
-            cm = Config(**SETTINGS[e])
+            cm = Config(**fresh(SETTINGS[e]))
             cm.__enter__()
             self.cms.append(cm)
             so, th, op = self.model[-1]
